@@ -532,6 +532,13 @@ func (t *Tr) mergeStates(preds []*ssa.BasicBlock, conds []string) *State {
 func (t *Tr) loopEnv(li *loopInfo, phiVals map[*ssa.Phi]Term, at *ssa.BasicBlock) *Env {
 	env := t.envAt(at)
 	for _, in := range li.header.Instrs {
+		if nx, ok := in.(*ssa.Next); ok {
+			if rs := t.rangeIt[nx.Iter]; rs != nil && rs.isMap {
+				env.visitedHeap = rs.heap
+			}
+		}
+	}
+	for _, in := range li.header.Instrs {
 		phi, ok := in.(*ssa.Phi)
 		if !ok {
 			break
